@@ -266,6 +266,7 @@ def observe(t):
 class C23:
     PROP = "C23"
     LEVEL = "exploration"
+    NO_PIN = True   # no baton threads here: let the OS scheduler place the workers
     TIERS = {
         "quick": {"runs": 100000, "budget_s": 50, "chunk": 200, "determinism_runs": 48},
         "thorough": {"runs": 3000000, "budget_s": 1200, "chunk": 400, "determinism_runs": 256,
